@@ -303,3 +303,24 @@ func VerifC20_BadMarriage(cs int) {
 	VsAssert("no-age-at-marriage-warning-without-a-usable-marriage-date", vCount(keys, "MarriedOutOfRange") == 0)
 	VsAssert("unusable-marriage-date-is-reported-once-if-unparsable", vCount(keys, "UnparsableDate") == wantUnparsable)
 }
+
+// VerifC20_ThreeSiblings: three children of one family, two of them close together (a day in January
+// and a day in June 1900: about five months) and one far away (1905), with the CHIL lines in each of
+// the six orders (cs%6): exactly one siblings-too-close warning, for the close pair, whatever the order.
+func VerifC20_ThreeSiblings(cs int) {
+	a, b, c := vNewExactDayIn("sibA", 0, 1900), vNewExactDayIn("sibB", 1, 1900), vNewExactDayIn("sibC", 1, 1905)
+	order := [][]int{{0, 1, 2}, {0, 2, 1}, {1, 0, 2}, {1, 2, 0}, {2, 0, 1}, {2, 1, 0}}[cs%6]
+	chil := ""
+	for _, i := range order {
+		chil += "1 CHIL @" + []string{"I3", "I4", "I5"}[i] + "@\n"
+	}
+	text := vIndi("I3", "Sib /One/", "", vEvent("BIRT", a.text)) + vIndi("I4", "Sib /Two/", "", vEvent("BIRT", b.text)) +
+		vIndi("I5", "Sib /Three/", "", vEvent("BIRT", c.text)) + "0 @F1@ FAM\n" + chil
+	doc, err := NewDocumentFromString(text)
+	VsAssume(err == nil)
+	keys := vWarningKeys(doc)
+	VsObserve(strings.Join(keys, ";"))
+	VsReach("three-siblings-checked")
+	VsAssert("close-pair-among-three-is-reported-once", vCount(keys, "SiblingsBornTooClose") == 1)
+	VsAssert("close-pair-among-three-is-named", vHas(keys, "SiblingsBornTooClose||F1|siblings=I3,I4"))
+}
